@@ -36,7 +36,7 @@ class GenProblem(Problem):
     are NaN outside the box, so an out-of-box evaluation is visible),
     c_i(x) = a_i'x + 1/2 sum_j D_ij x_j^2 - b_i,  cl <= c(x) <= cu."""
 
-    def __init__(self, Q, c, A, D, b, cl, cu, xl, xu, w=None, fmt="coo"):
+    def __init__(self, Q, c, A, D, b, cl, cu, xl, xu, w=None, fmt="coo", int_cons_bounds=False):
         self.Q = np.asarray(Q, dtype=float)
         self.c = np.asarray(c, dtype=float)
         self.A = np.asarray(A, dtype=float).reshape((-1, self.c.size))
@@ -46,8 +46,13 @@ class GenProblem(Problem):
         self.fmt = fmt
         m = self.A.shape[0]
         if m > 0:
-            super().__init__(np.asarray(xl, dtype=float), np.asarray(xu, dtype=float),
-                             cons_lb=np.asarray(cl, dtype=float), cons_ub=np.asarray(cu, dtype=float))
+            cl = np.asarray(cl, dtype=float)
+            cu = np.asarray(cu, dtype=float)
+            if int_cons_bounds and np.isfinite(cl).all() and np.isfinite(cu).all():
+                # callers may hand over bound arrays of any numeric dtype: integral bounds as an integer array
+                cl = np.floor(cl).astype(int)
+                cu = np.ceil(cu).astype(int)
+            super().__init__(np.asarray(xl, dtype=float), np.asarray(xu, dtype=float), cons_lb=cl, cons_ub=cu)
         else:
             super().__init__(np.asarray(xl, dtype=float), np.asarray(xu, dtype=float), num_cons=0)
 
@@ -161,7 +166,7 @@ def simplex_qp(rng, n):
     return prob, np.zeros(n), {}
 
 
-def boxdomain_problem(rng, n, m, fmt="coo"):
+def boxdomain_problem(rng, n, m, fmt="coo", int_cons_bounds=False):
     """Smooth non-convex problem whose objective is only defined on the box (power terms)."""
     xl = rng.uniform(-1.0, 0.0, size=n)
     xu = xl + rng.uniform(0.5, 2.0, size=n)
@@ -177,7 +182,7 @@ def boxdomain_problem(rng, n, m, fmt="coo"):
     cu = cf + rng.uniform(0.0, 0.5, size=m)
     eq = rng.uniform(size=m) < 0.4
     cl[eq] = cu[eq] = cf[eq]
-    prob = GenProblem(Q, c, A, D, np.zeros(m), cl, cu, xl, xu, w=w, fmt=fmt)
+    prob = GenProblem(Q, c, A, D, np.zeros(m), cl, cu, xl, xu, w=w, fmt=fmt, int_cons_bounds=int_cons_bounds)
     x0 = rng.uniform(xl, xu)
     if rng.uniform() < 0.3:
         x0[0] = xl[0]
